@@ -52,9 +52,12 @@ Proof.
   unfold rinit. intros -> H. simpl in H. destruct (resumable_ok (pln_of sh im)); [reflexivity|discriminate].
 Qed.
 
+Lemma img_wf_wf0 sh I : img_wf sh I = true -> img_wf0 sh I = true.
+Proof. unfold img_wf, img_wf0. intro H. now apply andb_true_iff in H as [H _]. Qed.
+
 (* one crash: the image only has to be well-formed when its plan is Running (otherwise nothing runs at all) *)
-Lemma noreexec_of_wf d sh I tr r0 r :
-  (cst I OPlan = Running -> img_wf sh (dimg_of_image I) = true) ->
+Lemma noreexec_of_wf0 d sh I tr r0 r :
+  (cst I OPlan = Running -> img_wf0 sh (dimg_of_image I) = true) ->
   rinit sh (dimg_of_image I) (im_reason I) = Some r0 ->
   rrun d sh r0 tr = Some r ->
   mon_noreexec I tr = true.
@@ -81,6 +84,15 @@ Fixpoint chain_accepted (d : devs) (sh : shape) (im : dimg) (rs : reason) (steps
       /\ chain_accepted d sh (fst (crash_from im rs tr k)) (snd (crash_from im rs tr k)) rest
   end.
 
+Fixpoint chain_wf0 (sh : shape) (im : dimg) (rs : reason) (steps : list (list event * nat)) : Prop :=
+  match steps with
+  | [] => True
+  | (tr, k) :: rest =>
+      (ist im OPlan = Running -> img_wf0 sh im = true)
+      /\ chain_wf0 sh (fst (crash_from im rs tr k)) (snd (crash_from im rs tr k)) rest
+  end.
+
+(* the same with the stronger img_wf (five clauses) *)
 Fixpoint chain_wf (sh : shape) (im : dimg) (rs : reason) (steps : list (list event * nat)) : Prop :=
   match steps with
   | [] => True
@@ -101,7 +113,7 @@ Fixpoint chain_noreexec (sh : shape) (im : dimg) (rs : reason) (steps : list (li
   end.
 
 Lemma starts_of_wf d sh im rs tr r0 r :
-  (ist im OPlan = Running -> img_wf sh im = true) ->
+  (ist im OPlan = Running -> img_wf0 sh im = true) ->
   rinit sh im rs = Some r0 -> rrun d sh r0 tr = Some r ->
   Forall (fun e => match e with EvStart a => ist im OPlan = Running /\ ok_start im a | _ => True end) tr.
 Proof.
@@ -116,18 +128,36 @@ Proof.
     eapply Forall_impl; [|exact HF]. intros e He. destruct e; auto; contradiction.
 Qed.
 
-Lemma crash_chain_noreexec d sh steps : forall im rs,
-  chain_accepted d sh im rs steps -> chain_wf sh im rs steps -> chain_noreexec sh im rs steps.
+Lemma crash_chain_noreexec0 d sh steps : forall im rs,
+  chain_accepted d sh im rs steps -> chain_wf0 sh im rs steps -> chain_noreexec sh im rs steps.
 Proof.
   induction steps as [|[tr k] rest IH]; intros im rs Ha Hw; simpl in *; [exact Logic.I|].
   destruct Ha as [(r0 & r & Hi & Hr) Ha]. destruct Hw as [Hw0 Hw]. split; [|now apply IH].
   eapply starts_of_wf; eauto.
 Qed.
 
+Lemma chain_wf_wf0 sh steps : forall im rs, chain_wf sh im rs steps -> chain_wf0 sh im rs steps.
+Proof.
+  induction steps as [|[tr k] rest IH]; intros im rs H; simpl in *; [exact Logic.I|].
+  destruct H as [H0 H]. split; [intro Hp; apply img_wf_wf0; auto|now apply IH].
+Qed.
+
+Lemma crash_chain_noreexec d sh steps : forall im rs,
+  chain_accepted d sh im rs steps -> chain_wf sh im rs steps -> chain_noreexec sh im rs steps.
+Proof. intros im rs Ha Hw. apply (crash_chain_noreexec0 d); [exact Ha|now apply chain_wf_wf0]. Qed.
+
+Lemma noreexec_of_wf d sh I tr r0 r :
+  (cst I OPlan = Running -> img_wf sh (dimg_of_image I) = true) ->
+  rinit sh (dimg_of_image I) (im_reason I) = Some r0 ->
+  rrun d sh r0 tr = Some r ->
+  mon_noreexec I tr = true.
+Proof. intros Hwf. apply noreexec_of_wf0. intro Hp. apply img_wf_wf0. auto. Qed.
+
 Lemma repair_sound_facts sh I :
-  img_wf sh I = true -> ist I OPlan = Running -> resumable_ok (pln_of sh I) = true ->
+  img_wf0 sh I = true -> ist I OPlan = Running -> resumable_ok (pln_of sh I) = true ->
   (forall fl b, block_of sh b <> None -> is_terminal (ist I (OBlock b)) = true -> is_terminal (blk_st sh I fl b) = true)
-  /\ (forall fl b q, seq_of sh b q <> None -> is_terminal (blk_st sh I fl b) = false -> ~ In (b, q) (resumed sh I) ->
+  /\ (forall fl b q, is_terminal (pln_st sh I fl) = false ->
+        seq_of sh b q <> None -> is_terminal (blk_st sh I fl b) = false -> ~ In (b, q) (resumed sh I) ->
         ~ cf (seq_st0 sh I b q) -> open_from sh I b q 0)
   /\ (forall b q, In (b, q) (resumed sh I) ->
         ist I (OBlock b) = Running /\ seq_of sh b q <> None /\ open_from sh I b q (first_open (pln_of sh I) b q)).
